@@ -236,7 +236,8 @@ REGISTRY = {
                                     'PP.Proofs.ShownC01', 'PP.Props.C01c', 'PP.Props.C02', 'PP.Props.C04'],
         'sections': [{'name': 'builtin-values', 'run': values_sec('builtin_values_section')},
                      {'name': 'tokens', 'run': values_sec('tokens_section')},
-                     {'name': 'reader', 'run': values_sec('reader_section', mode='c01')}],
+                     {'name': 'reader', 'run': values_sec('reader_section', mode='c01')},
+                     {'name': 'mix', 'run': values_sec('mix_section')}],
         'trusted': VALUE_TRUSTED,
         'rule': 'pformat of built-in value trees vs the model (SDoc stream + text), eval oracle with exact types',
     },
@@ -251,7 +252,8 @@ REGISTRY = {
                      {'name': 'comments', 'run': values_sec('comments_section', mode='c03')},
                      {'name': 'subclasses', 'run': values_sec('subclasses_section')},
                      {'name': 'calls', 'run': values_sec('calls_section')},
-                     {'name': 'stdlib', 'run': simple_sec('sec_stdlib', 'stdlib_section_c03')}],
+                     {'name': 'stdlib', 'run': simple_sec('sec_stdlib', 'stdlib_section_c03')},
+                     {'name': 'mix', 'run': values_sec('mix_section')}],
         'trusted': VALUE_TRUSTED,
         'rule': 'same syntax tree (ast.dump) across all layout settings of each value; every line indented by a multiple of indent',
     },
@@ -264,7 +266,8 @@ REGISTRY = {
         'modules': VALUE_MODULES + ['PP.Props.Values', 'PP.Spec.Tokens', 'PP.Proofs.Toks', 'PP.Proofs.ToksStr', 'PP.Proofs.ToksComb',
                                     'PP.Proofs.ToksVal', 'PP.Props.C03', 'PP.Props.TokensMore', 'PP.Spec.Reader', 'PP.Proofs.ReaderRT', 'PP.Props.C01b', 'PP.Props.C08b', 'PP.Props.C04'],
         'sections': [{'name': 'subclasses', 'run': values_sec('subclasses_section')},
-                     {'name': 'reader', 'run': values_sec('reader_section', mode='c08')}],
+                     {'name': 'reader', 'run': values_sec('reader_section', mode='c08')},
+                     {'name': 'mix', 'run': values_sec('mix_section')}],
         'trusted': VALUE_TRUSTED,
         'rule': 'instances of generated subclasses of the nine built-in bases, nested, all layouts; eval reconstructs class and value',
     },
@@ -277,7 +280,8 @@ REGISTRY = {
                                     'PP.Props.C09c', 'PP.Props.C04'],
         'sections': [{'name': 'comments', 'run': values_sec('comments_section')},
                      {'name': 'fresh-interpreter', 'run': values_sec('fresh_comment_section')},
-                     {'name': 'tokens', 'run': values_sec('tokens_section')}],
+                     {'name': 'tokens', 'run': values_sec('tokens_section')},
+                     {'name': 'mix', 'run': values_sec('mix_section')}],
         'trusted': VALUE_TRUSTED,
         'rule': 'comment / trailing_comment placements, adversarial texts; eval == uncommented value, same ast, words preserved',
     },
@@ -288,7 +292,8 @@ REGISTRY = {
         'modules': VALUE_MODULES + ['PP.Props.Values', 'PP.Spec.Tokens', 'PP.Proofs.Toks', 'PP.Proofs.ToksStr', 'PP.Proofs.ToksComb', 'PP.Proofs.ToksVal', 'PP.Proofs.Shown', 'PP.Proofs.NoBite', 'PP.Props.C03', 'PP.Props.Limits', 'PP.Props.NoLimit', 'PP.Props.C04', 'PP.Spec.Reader', 'PP.Proofs.ReaderRT', 'PP.Proofs.ShownRd', 'PP.Props.C10b'],
         'sections': [{'name': 'truncation', 'run': values_sec('truncation_section')},
                      {'name': 'tokens', 'run': values_sec('tokens_section', limits=True)},
-                     {'name': 'reader', 'run': values_sec('reader_section', mode='c10')}],
+                     {'name': 'reader', 'run': values_sec('reader_section', mode='c10')},
+                     {'name': 'mix', 'run': values_sec('mix_section')}],
         'trusted': VALUE_TRUSTED,
         'rule': 'container trees x max_seq_len in {1..maxlen+1, None}',
     },
@@ -297,7 +302,8 @@ REGISTRY = {
                      'PP.C04.sound_pformat', 'PP.C11.depth_zero_placeholder', 'PP.C11.unlimited_never_zero'],
         'modules': VALUE_MODULES + ['PP.Props.Values', 'PP.Spec.Tokens', 'PP.Proofs.Toks', 'PP.Proofs.ToksStr', 'PP.Proofs.ToksComb', 'PP.Proofs.ToksVal', 'PP.Proofs.Shown', 'PP.Proofs.NoBite', 'PP.Props.C03', 'PP.Props.Limits', 'PP.Props.NoLimit', 'PP.Props.C04'],
         'sections': [{'name': 'depth', 'run': values_sec('depth_section')},
-                     {'name': 'tokens', 'run': values_sec('tokens_section', limits=True)}],
+                     {'name': 'tokens', 'run': values_sec('tokens_section', limits=True)},
+                     {'name': 'mix', 'run': values_sec('mix_section')}],
         'trusted': VALUE_TRUSTED,
         'rule': 'container trees with unique leaves x depth in {0..height+2, None}',
     },
@@ -310,7 +316,8 @@ REGISTRY = {
                                     'PP.Proofs.ToksVal', 'PP.Props.C03', 'PP.Props.TokensMore', 'PP.Model.Fields', 'PP.Props.C17b', 'PP.Spec.Reader', 'PP.Proofs.ReaderRT', 'PP.Props.C01b', 'PP.Props.C08b', 'PP.Props.C04'],
         'sections': [{'name': 'calls', 'run': values_sec('calls_section')},
                      {'name': 'reader', 'run': values_sec('reader_section', mode='c17')},
-                     {'name': 'dataclasses-attrs', 'run': simple_sec('sec_extras', 'extras_section')}],
+                     {'name': 'dataclasses-attrs', 'run': simple_sec('sec_extras', 'extras_section')},
+                     {'name': 'mix', 'run': values_sec('mix_section')}],
         'trusted': VALUE_TRUSTED,
         'rule': 'objects printed through pretty_call_alt: args/kwargs order, nesting, comments; dataclasses/attrs field selection',
     },
@@ -386,7 +393,8 @@ REGISTRY = {
                      'PP.C07.datetime_date_only', 'PP.C07.chainmap_shortcut', 'PP.C07.deque_maxlen', 'PP.C04.sound_pformat', 'PP.C07.printer_inventory'],
         'modules': VALUE_MODULES + ['PP.Model.Std', 'PP.Props.C07', 'PP.Generated', 'PP.Props.PrinterInventory', 'PP.Props.C04'],
         'sections': [{'name': 'stdlib', 'run': simple_sec('sec_stdlib', 'stdlib_section')},
-                     {'name': 'builtin-values', 'run': values_sec('builtin_values_section')}],
+                     {'name': 'builtin-values', 'run': values_sec('builtin_values_section')},
+                     {'name': 'mix', 'run': values_sec('mix_section')}],
         'trusted': VALUE_TRUSTED,
         'rule': 'instances of every stdlib type with a bundled printer, boundary values, nesting contexts, layouts; totality of the built-in printers on value trees',
         'assumptions': ['datetime / timedelta / timezone constructors are modelled by their documented normalisation (integer arithmetic); validated by eval of every printed instance'],
